@@ -5,11 +5,11 @@ import re
 import vf
 
 GROUP = "Grants"
-THEOREMS = ["C43_iff_partial", "C43_no_crosstalk_partial", "C43_grant_effective", "C43_crosstalk_refuted"]
+THEOREMS = ["C43_iff_partial", "C43_no_crosstalk_partial", "C43_grant_effective", "C43_drop_clears", "C43_crosstalk_refuted"]
 META = {
     "group": GROUP,
     "technique": "Coq proof over all histories of grant/revoke/create/delete operations on a Gallina model of the table_perms store and of Authorized + vm_compute correspondence with the real functions on a SQLite-backed store + property oracle + call-site shape check",
-    "text": "Theorems C43_iff_partial (row endpoint lets a request through iff administrator, or DSN unrestricted, or the store records exactly one row for (user, DSN, table) allowing the operation) and C43_no_crosstalk_partial (for every history, an authorization of a non-administrator on a restricted DSN stems from a grant operation in the history for exactly that user, DSN and table) are proved for DSN names without a dot; C43_grant_effective: a grant takes effect; C43_crosstalk_refuted: with a dot in the DSN name the 'dsn.table' key is split at the wrong place and a grant on (u, a, b.c) authorizes table c of DSN a.b (known finding, replayed on the real Authorized). partial: DSN names containing '.' (known finding); the SQL store behind pHandle is assumed to behave as a keyed row set (C30); the handlers' code between the guard and the database is not modelled",
+    "text": "Theorems C43_iff_partial (row endpoint lets a request through iff administrator, or DSN unrestricted, or the store records exactly one row for (user, DSN, table) allowing the operation) and C43_no_crosstalk_partial (for every history, an authorization of a non-administrator on a restricted DSN stems from a grant operation in the history for exactly that user, DSN and table) are proved for DSN names without a dot; C43_grant_effective: a grant takes effect; C43_drop_clears: after a table drop (DeleteTable) no grant on it authorizes, also when a table of that name is created again; C43_crosstalk_refuted: with a dot in the DSN name the 'dsn.table' key is split at the wrong place and a grant on (u, a, b.c) authorizes table c of DSN a.b (known finding, replayed on the real Authorized). partial: DSN names containing '.' (known finding); the SQL store behind pHandle is assumed to behave as a keyed row set (C30); the handlers' code between the guard and the database is not modelled",
     "note": "Trusted: Coq kernel; hand-written model of GrantPermissions / DeletePermissions / DeletePermissionsByDSN / createTablePermissions / Authorized and of the guard expression at the row endpoints (its shape is re-read from rows.go and rowsAbstract.go on every run); resources.ResHandle on SQLite as a row set with exact string equality; overlay harness and Python comparison.",
 }
 USERS = ["alice", "bob", "carol"]
@@ -19,7 +19,31 @@ PERMS = ["read", "write", "update", "delete", "admin"]
 PIDX = {"read": 0, "write": 1, "update": 2, "delete": 3, "admin": 4}
 FULLP = lambda p: "ego.table." + p      # noqa: E731
 
+PLAIN_TABLES = ["t", "u", "c"]
 CORPUS = [
+    # a grant must not survive drop + re-creation of the table by somebody else (stale cached grants)
+    [{"k": "dsn", "d": "d1", "r": True}, {"k": "tcreate", "u": "alice", "d": "d1", "t": "t"},
+     {"k": "auth", "su": "bob", "sa": False, "u": "bob", "d": "d1", "t": "t", "perms": ["ego.table.read"]},
+     {"k": "grant", "u": "bob", "d": "d1", "t": "t", "perms": ["+ego.table.read"]},
+     {"k": "auth", "su": "bob", "sa": False, "u": "bob", "d": "d1", "t": "t", "perms": ["ego.table.read"]},
+     {"k": "auth", "su": "bob", "sa": False, "u": "bob", "d": "d1", "t": "t", "perms": ["ego.table.read"]},
+     {"k": "tdrop", "d": "d1", "t": "t"}, {"k": "tcreate", "u": "carol", "d": "d1", "t": "t"},
+     {"k": "auth", "su": "bob", "sa": False, "u": "bob", "d": "d1", "t": "t", "perms": ["ego.table.read"]},
+     {"k": "auth", "su": "alice", "sa": False, "u": "alice", "d": "d1", "t": "t", "perms": ["ego.table.delete"]},
+     {"k": "auth", "su": "carol", "sa": False, "u": "carol", "d": "d1", "t": "t", "perms": ["ego.table.delete"]}],
+    # successful access, then every way a grant can disappear, then the same access again
+    [{"k": "dsn", "d": "d1", "r": True}, {"k": "dsn", "d": "d2", "r": True},
+     {"k": "grant", "u": "bob", "d": "d1", "t": "t", "perms": ["+ego.table.read", "+ego.table.update"]},
+     {"k": "grant", "u": "bob", "d": "d2", "t": "t", "perms": ["+ego.table.read"]},
+     {"k": "auth", "su": "bob", "sa": False, "u": "bob", "d": "d1", "t": "t", "perms": ["ego.table.update"]},
+     {"k": "auth", "su": "bob", "sa": False, "u": "bob", "d": "d2", "t": "t", "perms": ["ego.table.read"]},
+     {"k": "grant", "u": "bob", "d": "d1", "t": "t", "perms": ["-ego.table.update"]},
+     {"k": "auth", "su": "bob", "sa": False, "u": "bob", "d": "d1", "t": "t", "perms": ["ego.table.update"]},
+     {"k": "auth", "su": "bob", "sa": False, "u": "bob", "d": "d1", "t": "t", "perms": ["ego.table.read"]},
+     {"k": "delete", "u": "bob", "d": "d1", "t": "t"},
+     {"k": "auth", "su": "bob", "sa": False, "u": "bob", "d": "d1", "t": "t", "perms": ["ego.table.read"]},
+     {"k": "deldsn", "d": "d2"}, {"k": "dsn", "d": "d2", "r": True},
+     {"k": "auth", "su": "bob", "sa": False, "u": "bob", "d": "d2", "t": "t", "perms": ["ego.table.read"]}],
     # the refuted witness: grant on (alice, a, b.c) and a request for table c of DSN a.b
     [{"k": "dsn", "d": "a", "r": True}, {"k": "dsn", "d": "a.b", "r": True},
      {"k": "grant", "u": "alice", "d": "a", "t": "b.c", "perms": ["+ego.table.read"]},
@@ -77,6 +101,12 @@ def gen_history(rng):
             h.append({"k": "dsn", "d": d, "r": rng.random() < 0.7})
         elif r < 0.51:
             h.append({"k": "deldsn", "d": d})
+        elif r < 0.58:
+            h.append({"k": "tcreate", "u": u, "d": d, "t": t if t in PLAIN_TABLES else rng.choice(PLAIN_TABLES)})
+        elif r < 0.65:
+            h.append({"k": "tdrop", "d": d, "t": t if t in PLAIN_TABLES else rng.choice(PLAIN_TABLES)})
+        elif r < 0.80 and any(o["k"] == "auth" for o in h):
+            h.append(dict(rng.choice([o for o in h if o["k"] == "auth"])))      # the same key asked again
         else:
             sa = rng.random() < 0.12
             su = u
@@ -88,9 +118,19 @@ def gen_history(rng):
 def spec_run(h):
     """The property's own reading: per (user,dsn,table) the multiset of rows; returns for every auth op
     (expected_lower, expected_upper) = (must be allowed, may be allowed) by the statement of C43."""
-    rows, dsns, out = [], {}, []
+    rows, dsns, out, phys = [], {}, [], set()
     for o in h:
         k = o["k"]
+        if k == "tcreate":
+            if o["d"] in dsns and (o["d"], o["t"]) not in phys:
+                phys.add((o["d"], o["t"]))
+                rows.append({"u": o["u"], "d": o["d"], "t": o["t"], "p": set(PERMS)})
+            continue
+        if k == "tdrop":
+            if o["d"] in dsns and (o["d"], o["t"]) in phys:
+                phys.discard((o["d"], o["t"]))
+                rows = [r for r in rows if not (r["d"] == o["d"] and r["t"] == o["t"])]
+            continue
         if k == "dsn":
             dsns[o["d"]] = o["r"]
         elif k == "deldsn":
@@ -144,6 +184,10 @@ def cop(o):
         return "IO (OGrant %s %s %s [%s])" % (cstr(o["u"]), cstr(o["d"]), cstr(o["t"]), ch)
     if k == "create":
         return "IO (OCreate %s %s %s)" % (cstr(o["u"]), cstr(o["d"]), cstr(o["t"]))
+    if k == "tcreate":
+        return "IO (OTCreate %s %s %s)" % (cstr(o["u"]), cstr(o["d"]), cstr(o["t"]))
+    if k == "tdrop":
+        return "IO (OTDrop %s %s)" % (cstr(o["d"]), cstr(o["t"]))
     if k == "delete":
         t = o.get("t")
         return "IO (ODelete %s %s %s)" % (copt(o.get("u")), copt(o.get("d")), copt(t if t else None))
@@ -180,7 +224,8 @@ def run(ck):
     quick = ck.tier == "quick"
     ck.cov["rule"] = ("histories of 6-22 operations over users %s, DSNs %s (restricted or not, re-defined, deleted), tables %s: "
                       "grant with +/- permission lists, creator grants (possibly duplicated), deletes with partial filters, "
-                      "DSN deletion, interleaved with authorization queries by several users (12%% administrators). "
+                      "DSN deletion, table creation and table drop through the real TableCreate / DeleteTable handlers on a real SQLite "
+                      "database per DSN, repeated queries of an earlier key, interleaved with authorization queries by several users (12%% administrators). "
                       "distinct_nontrivial = distinct (history prefix, query) pairs on a restricted DSN by a non-administrator "
                       "after at least one grant in the history" % (USERS, DSNS, TABLES))
     ck.assume("resources.ResHandle over SQLite behaves as a row set with exact (binary) string equality filters (property C30)",
@@ -209,13 +254,26 @@ def run(ck):
     if rc != 0:
         ck.violation("harness-run", "harness failed:\n" + log[-1500:], replay={"log": log[-3000:]}, found_input=False)
         return
-    obs = [json.loads(l) for l in open(outp)]
+    raw = [json.loads(l) for l in open(outp)]
+    obs = [r["a"] or [] for r in raw]
+    stores = [r["s"] or [] for r in raw]
     if len(obs) != len(hs):
         ck.violation("harness-run", "harness answered %d of %d histories" % (len(obs), len(hs)), replay={}, found_input=False)
         return
 
     # ---- property oracle on the real answers
     nontriv, nq, dist = set(), 0, {"admin": 0, "unrestricted": 0, "restricted": 0, "no-dsn": 0}
+    restricted_at = []
+    for h in hs:                     # DSN state at each query, for the oracle against the real store
+        cur, l = {}, []
+        for o in h:
+            if o["k"] == "dsn":
+                cur[o["d"]] = o["r"]
+            elif o["k"] == "deldsn":
+                cur.pop(o["d"], None)
+            elif o["k"] == "auth":
+                l.append(cur.get(o["d"]))
+        restricted_at.append(l)
     for hi, (h, ans) in enumerate(zip(hs, obs)):
         spec = spec_run(h)
         qs = [o for o in h if o["k"] == "auth"]
@@ -230,6 +288,13 @@ def run(ck):
             if why == "restricted" and any(o["k"] in ("grant", "create") for o in prefix):
                 nontriv.add(json.dumps(prefix, sort_keys=True))
             got = bool(a)
+            # the permission STORE at this moment: a grant that is no longer recorded must not authorize
+            if qi < len(stores[hi]) and got and not (q["sa"] and q["u"] == q["su"]) and restricted_at[hi][qi] is True \
+                    and "." not in q["d"] and stores[hi][qi][1] == 0:
+                ck.violation("authorized-not-in-store",
+                             "Authorized(%s, %s, %s.%s, %s) = true although table_perms holds %d row(s) for that user, DSN and table and none allows it "
+                             "(a grant that is no longer recorded still authorizes)" % (q["su"], q["u"], q["d"], q["t"], q["perms"][0], stores[hi][qi][0]),
+                             replay={"histories": [prefix]})
             if got and not hi_:
                 dotted = "." in q["d"]
                 ck.violation("dotted-dsn-crosstalk" if dotted else "authorized-without-grant",
